@@ -961,6 +961,67 @@ def rule_compat(chk, prog, tier):
     r.exhaustive = False
 
 
+# ------------------------------------------------------------------ C05.e2 arrays completed by an initialiser
+
+def rule_completed_arrays(chk, prog, tier):
+    r = chk.rule('C05.e2', 'an array of unknown size that an initialiser (of an object or of a compound literal) completes has the size the initialiser gives it, also for compatibility: from then on it is compatible with arrays of that '
+                 'many elements only (pointer assignment, _Generic, redeclaration)', floor=12, oracle='C11 6.7.9p22, 6.2.7p1, 6.7.6.2p6')
+    pi = prog.require_func('parseinit', 'init.c')
+    tc = prog.require_func('typecompatible', 'type.c')
+    for n in (1, 2, 3):
+        for form in ('list', 'designated'):
+            def runner(it):
+                it.MAX_STEPS = 400000
+                w = World(prog, it=it, target='x86_64-sysv')
+                I = w.t('int')
+                a = it.call('mkarraytype', [I, 0, 0])
+                if form == 'list': toks = ['{'] + ['e', ','] * (n - 1) + ['e', '}', ';']
+                else: toks = ['{', '[', n - 1, ']', '=', 'e', '}', ';']
+                TK = {'{': 'TLBRACE', '}': 'TRBRACE', ',': 'TCOMMA', '[': 'TLBRACK', ']': 'TRBRACK', '=': 'TASSIGN', ';': 'TSEMICOLON'}
+                tokobj = it.gobj('tok'); st = {'i': 0}
+                def cur(): return toks[min(st['i'], len(toks) - 1)]
+                def load():
+                    tokobj.f[('kind',)] = ev(prog, TK.get(cur(), 'TNUMBER')); tokobj.f[('lit',)] = None
+                    tokobj.f[('loc', 'file')] = None; tokobj.f[('loc', 'line')] = 1; tokobj.f[('loc', 'col')] = 1
+                def nxt(i2, a_, e): st['i'] += 1; load(); return None
+                def consume(i2, a_, e):
+                    if cur() in TK and tokobj.f[('kind',)] == a_[0]: nxt(i2, a_, e); return 1
+                    return 0
+                def expect(i2, a_, e):
+                    if cur() not in TK or tokobj.f[('kind',)] != a_[0]: raise Terminal('error', 'expected token')
+                    nxt(i2, a_, e); return None
+                def ice(i2, a_, e):
+                    if not isinstance(cur(), int): raise Terminal('error', 'expected constant expression')
+                    v = cur(); nxt(i2, a_, e); return v
+                def assignexpr(i2, a_, e):
+                    if cur() != 'e': raise Terminal('error', 'expected expression')
+                    nxt(i2, a_, e); return w.mkexpr('EXPRCONST', I, u__constant__u=7)
+                it.models.update({'next': nxt, 'consume': consume, 'expect': expect, 'intconstexpr': ice, 'assignexpr': assignexpr, 'exprassign': lambda i2, a_, e: a_[0], 'free': lambda i2, a_, e: None,
+                                  'xmalloc': lambda i2, a_, e: Ptr(Obj('heap@%s' % e.get('line'), 'heap'), ()),
+                                  'error': lambda i2, a_, e: (_ for _ in ()).throw(Terminal('error', cmodel.fmt_of(i2, a_, 1))),
+                                  'fatal': lambda i2, a_, e: (_ for _ in ()).throw(Terminal('fatal', cmodel.fmt_of(i2, a_, 0)))})
+                load()
+                it.call(pi, [Ptr(Obj('scope', 'heap'), ()), a])
+                out = {'size': it.load(a.obj, ('size',)), 'incomplete': it.load(a.obj, ('incomplete',))}
+                for k in (1, 2, 3, 4):
+                    b = it.call('mkarraytype', [I, 0, k]); b.obj.f[('u', 'array', 'length')] = w.mkexpr('EXPRCONST', w.t('ulong'), u__constant__u=k)      # what declarator() builds for int[k]
+                    out[k] = (bool(it.call(tc, [a, b])), bool(it.call(tc, [b, a])), bool(it.call(tc, [w.mkptr(a), w.mkptr(b)])))
+                u_ = it.call('mkarraytype', [I, 0, 0])
+                out['unknown'] = (bool(it.call(tc, [a, u_])), bool(it.call(tc, [u_, a])))
+                return out
+            runs = explore(prog, runner, {}, max_runs=2, on_unsupported='keep')
+            what = 'int a[] = {%s}' % (', '.join(['e'] * n) if form == 'list' else '[%d] = e' % (n - 1))
+            if len(runs) != 1 or runs[0].outcome != 'return':
+                raise AnalysisBroken('%s: %s' % (what, [(x.outcome, x.detail) for x in runs][:2]))
+            out = runs[0].value
+            r.instance(out['size'] == 4 * n and not out['incomplete'], 'completed:%s,size' % what, 'init.c:%s' % pi.get('line'), 'the array has %d elements (%d bytes); cproc: size %s, incomplete %s' % (n, 4 * n, out['size'], out['incomplete']))
+            for k in (1, 2, 3, 4):
+                r.instance(out[k] == ((k == n),) * 3, 'completed:%s,int[%d]' % (what, k), 'type.c:%s' % tc.get('line'),
+                           'it is %scompatible with int[%d] (in both orders, and as pointed-to type); typecompatible says %s' % ('' if k == n else 'not ', k, out[k]))
+            r.instance(out['unknown'] == (True, True), 'completed:%s,int[]' % what, 'type.c:%s' % tc.get('line'), 'it is compatible with an array of unknown size; typecompatible says %s' % (out['unknown'],))
+    r.exhaustive = False
+
+
 # ------------------------------------------------------------------ C05.k generic selection
 
 def rule_generic(chk, prog, tier):
@@ -1331,6 +1392,7 @@ def run(chk, tier):
     chk.guard('C05.h', lambda: rule_conditional(chk, prog, tier))
     chk.guard('C05.i', lambda: rule_specifiers(chk, prog, tier))
     chk.guard('C05.e', lambda: rule_compat(chk, prog, tier))
+    chk.guard('C05.e2', lambda: rule_completed_arrays(chk, prog, tier))
     chk.guard('C05.k', lambda: rule_generic(chk, prog, tier))
     chk.guard('C05.l', lambda: rule_indirection(chk, prog, tier))
     chk.guard('C05.m', lambda: rule_value_category(chk, prog, tier))
